@@ -7,6 +7,8 @@ mod builder;
 mod validate;
 
 use zobrist::*;
+#[cfg(cozy_chess_verif)]
+pub use zobrist::{__verif_zobrist_keys, VerifZobristKeys};
 pub use movegen::*;
 pub use parse::*;
 pub use builder::*;
